@@ -87,9 +87,17 @@ def _build_circuit(c):
     return C.Circuit(ops, n_qubits=c["n"])
 
 
-def _build_task(t):
+def _build_task(t, circuits=None):
     EstimationTask = _lib()[2]
-    return EstimationTask(_build_op(t), _build_circuit(t["circuit"]), t["shots"])
+    if circuits is None:
+        circ = _build_circuit(t["circuit"])
+    else:
+        # tasks with the same circuit spec share ONE Circuit object (as in a parameter scan / gradient)
+        key = common.canon(t["circuit"])
+        if key not in circuits:
+            circuits[key] = _build_circuit(t["circuit"])
+        circ = circuits[key]
+    return EstimationTask(_build_op(t), circ, t["shots"])
 
 
 def _canon_param(p):
@@ -142,6 +150,25 @@ class _Recorder:
 
 
 _EXC = {ValueError: "err:value", TypeError: "err:type", IndexError: "err:index", RuntimeError: "err:runtime"}
+
+
+def _stub_runner():
+    """a runner built on BaseCircuitRunner that executes X/Y/Z-only circuits classically (exactly n copies of the
+    prepared basis state) – lets wide registers be estimated without simulating 2^n amplitudes"""
+    common.use_repo()
+    from orquestra.quantum.api.circuit_runner import BaseCircuitRunner
+    from orquestra.quantum.measurements import Measurements
+
+    class Stub(BaseCircuitRunner):
+        def _run_and_measure(self, circuit, n_samples):
+            bits = [0] * circuit.n_qubits
+            for op in circuit.operations:
+                if op.gate.name in ("X", "Y"):
+                    bits[op.qubit_indices[0]] ^= 1
+                elif op.gate.name not in ("Z", "I"):
+                    raise ValueError("stub runner executes X/Y/Z/I circuits only")
+            return Measurements([tuple(bits)] * n_samples)
+    return Stub()
 
 
 def _err(e):
@@ -392,7 +419,35 @@ def _rand_bind_case(rng, nmax):
     for _ in range(nm):
         ss = rng.sample(syms + ["unused"], rng.randrange(0, 5))
         maps.append([[s, rat(Fraction(rng.randrange(-8, 9), 4))] for s in ss])
-    return {"kind": "bind", "tasks": tasks, "maps": maps}
+    case = {"kind": "bind", "tasks": tasks, "maps": maps}
+    if k >= 2 and rng.random() < 0.4:
+        # parameter scan: every task holds the same circuit (one shared object), one differing map per task
+        import copy
+        for t in tasks[1:]:
+            t["circuit"] = copy.deepcopy(tasks[0]["circuit"])
+        case["share_circuits"] = True
+        if nm == k:
+            case["maps"] = [[[s2, rat(Fraction(rng.randrange(-8, 9), 4))] for s2 in syms] for _ in range(k)]
+    return case
+
+
+def _wide_case(rng):
+    """basis-state tasks on 13..22 qubits whose operators hold supports differing only in digit grouping"""
+    tasks = []
+    for _ in range(rng.randrange(1, 4)):
+        n = rng.randrange(13, 23)
+        flips = rng.sample(range(n), rng.randrange(1, 6))
+        a, b = rng.randrange(1, 3), rng.randrange(0, 10)
+        op = []
+        if a != b and 10 * a + b < n:
+            op += [_term(rng.randrange(1, 5), [(a, "Z"), (b, "Z")]), _term(rng.randrange(1, 5), [(10 * a + b, "Z")])]
+            if 10 * a + b not in flips:
+                flips.append(10 * a + b)
+        for _ in range(rng.randrange(1, 3)):
+            op.append(_term(rng.randrange(-4, 5) or 1, [(q, "Z") for q in rng.sample(range(n), rng.randrange(1, 4))]))
+        rng.shuffle(op)
+        tasks.append({"op": op, "circuit": _circ(n, [["X", q] for q in flips]), "shots": rng.randrange(1, 9)})
+    return {"kind": "averaging", "tasks": tasks, "seed": 0, "runner": "stub"}
 
 
 def generate(rng, tier):
@@ -422,7 +477,12 @@ def generate(rng, tier):
         cases.append({"kind": "nonmeasured", "tasks": tasks})
     for _ in range(800 if big else 100):
         cases.append(_rand_bind_case(rng, nmax))
+    cases += _gen_wide(rng, tier)
     return cases
+
+
+def _gen_wide(rng, tier):
+    return [_wide_case(rng) for _ in range(40 if tier == "thorough" else 8)]
 
 
 def nontrivial(c):
@@ -445,14 +505,14 @@ def run_impl(c):
     sympy, C, EstimationTask, E, PauliSum, PauliTerm, SymbolicSimulator = _lib()
     k = c["kind"]
     # identical JSON tasks (same dict object) are built once, so that "the same task twice" is the same object
-    built, tasks = {}, []
+    built, tasks, shared = {}, [], ({} if c.get("share_circuits") else None)
     for t in c["tasks"]:
         if id(t) not in built:
-            built[id(t)] = _build_task(t)
+            built[id(t)] = _build_task(t, shared)
         tasks.append(built[id(t)])
     try:
         if k == "averaging":
-            rec = _Recorder(SymbolicSimulator(seed=c["seed"]))
+            rec = _Recorder(_stub_runner() if c.get("runner") == "stub" else SymbolicSimulator(seed=c["seed"]))
             try:
                 res = E.estimate_expectation_values_by_averaging(rec, tasks)
             except Exception as e:
